@@ -20,18 +20,19 @@ def forced(ctx, harness, sig_ok_prefix, viol_signature, what):
 
 
 def run_lane(ctx, configs, layer="L-trace lane", what="lane", order_property=False):
-    """configs: list of (threads, ops, serial_only[, chain]) - chain=1 makes the serial queue target the concurrent one. Returns number of transitions explained.
+    """configs: list of (threads, ops, serial_only[, chain[, width]]) - chain=1 makes the serial queue target the concurrent one; width>0 runs the narrow-queue workload (concurrent queue limited to that width, flooded, first item waiting for the last). Returns number of transitions explained.
     order_property: the calling property is about submission order (C02 / C04): synchronous fast-path overtakes classified
     by the harness as instances of finding F15 are reported (as that finding); the other properties ignore them."""
     h = ctx.harness("tr_lane")
     drv = ctx.driver()
     procs = []
     for i, cfgi in enumerate(configs):
-        thr, ops, serial = cfgi[:3]; chain = cfgi[3] if len(cfgi) > 3 else 0
+        thr, ops, serial = cfgi[:3]; chain = cfgi[3] if len(cfgi) > 3 else 0; width = cfgi[4] if len(cfgi) > 4 else 0
         seed = ctx.seed * 1000 + i
         path = os.path.join(ctx.outdir, "%s-trace-%d.txt" % (what, i))
         f = open(path, "w")
-        procs.append((subprocess.Popen([h, str(seed), str(thr), str(ops), str(serial), str(chain)], stdout=f, stderr=subprocess.DEVNULL), f, path, [h, str(seed), str(thr), str(ops), str(serial), str(chain)]))
+        cmdl = [h, str(seed), str(thr), str(ops), str(serial), str(chain), str(width)]
+        procs.append((subprocess.Popen(cmdl, stdout=f, stderr=subprocess.DEVNULL), f, path, cmdl))
     paths, items, events, overtakes = [], 0, 0, 0
     for p, f, path, cmd in procs:
         try:
